@@ -134,7 +134,7 @@ def judge_iteration(F, call):
     if m in ("fmt", "serialize", "retain", "retain_mut", "alter_all"):
         return False, "%s visits the entries in hash order" % m
     flow = FnFlow(call.fn)
-    return flow.order_insensitive_consumer(call)
+    return flow.order_insensitive_consumer(call, closure_lookup=lambda path: F.fns.get(F._callee_gid(call.fn.crate, path)))
 
 
 def site_key(call, m):
@@ -247,6 +247,12 @@ def run(cx, rep):
                 bad += 1
     rep.ob("C10.ctl", "iteration-flagged", bad >= 6, "canary: expected >= 6 flagged hash iterations, got %d" % bad,
            sample={"canary_flagged_iterations": bad})
+    verdicts = {}
+    for call, kind, m in classify_calls(C, set(C.fns)):
+        if kind == "ITER" and call.fn.name in ("sorted_by_map_key", "sorted_by_value"):
+            verdicts[call.fn.name] = judge_iteration(C, call)[0]
+    rep.ob("C10.ctl", "vec-sort-total-key", verdicts == {"sorted_by_map_key": True, "sorted_by_value": False},
+           "canary: collect-then-sort must be accepted only when the sort key is the unique map key (got %s)" % verdicts, sample={"canary_sort_verdicts": verdicts})
     nun = len(list(unsize_to_fmt_object(C, set(C.fns))))
     rep.ob("C10.ctl", "dyn-fmt", nun >= 1, "canary: expected >= 1 hash container coerced to dyn Debug, got %d" % nun,
            sample={"canary_dyn_fmt": nun})
